@@ -3,7 +3,7 @@ r (reference) defined in a subset, an own reference w in every space.  Harness-s
 from kit import *  # noqa
 use_formula_memo()
 
-NAMES = ["A", "B", "C", "D"]
+NAMES = ["A", "B", "C", "D", "E"]
 
 
 def c3(bases, name):
